@@ -64,6 +64,19 @@ def gen_specs(run):
             specs.append({"id": f"c07-{sid}", "group": "ristretto" if (sid % 5 == 0 and b * m <= 64) else "fm", "members": [mem], "verifies": verifies,
                           "_role": "verify", "_tags": tags, "_conf": [b, m, T, j], "with_gens": False})
             sid += 1
+    # (a2) promise VECTORS whose entries are individually fine but whose u64 sum, xor or product is special (wraps to 0, to 1, to u64::MAX):
+    #      each promise is a datum of its own; nothing about the vector as a whole may change the verdict.  64-bit statements, honest proofs.
+    U = 1 << 64
+    vectors = [[1 << 63, 1 << 63], [U - 1, 1], [U - 1, 2], [1 << 62] * 4, [(1 << 63) + 1, (1 << 63) - 1], [U - 1, U - 1], [5, 5], [1 << 32, 1 << 32], [U - 2, 1, 1, 0]]
+    for vi_, pv in enumerate(vectors if not quick else vectors[:6]):
+        m_ = len(pv)
+        mem = gen.mk_member(rng, 64, m_, cap=m_, T=1 + vi_ % 2)
+        for j in range(m_):
+            mem["commit"][j]["v"] = str(pv[j] + rng.randrange(0, min(1 << 20, U - pv[j])))
+            mem["promises"][j] = str(pv[j])
+        specs.append({"id": f"c07-vec-{vi_}", "group": "fm", "members": [mem], "verifies": [{"mode": md, "vmembers": [gen.vmember(mem, 0)]} for md in ("VerifyOnly", "RecoverAndVerify")],
+                      "_role": "prove", "_tag": f"vector {['2^63,2^63', 'max,1', 'max,2', '4x2^62', '2^63+-1', 'max,max', '5,5', '2^32,2^32', 'max-1,1,1,0'][vi_]}", "_valid": True, "_stmt_ok": True,
+                      "_conf": [64, m_, 1 + vi_ % 2, 0], "with_gens": False})
     # (c) batches whose members carry different promise patterns (Some / None at the same position in different members, different
     #     aggregation factors): every member must be judged under its own promise vector
     nb = 6 if quick else 40
@@ -99,6 +112,66 @@ def gen_specs(run):
         specs.append({"id": f"c07-batch-{bi}", "group": "fm", "members": mems, "verifies": verifies, "_role": "batch", "_tags": tags,
                       "_conf": [b, max(shape), T, 0], "_shape": shape, "with_gens": False})
     return specs
+
+
+def substitution_attack(run):
+    """A proof made under promises p must not be accepted under another vector p'.  The promises enter the verification equation only through
+    sum_j z^(2(j+1)) p_j (times y^(nm+1)) on the value generator, so the one thing that stops an adversary from swapping in a vector p' with the same
+    weighted sum is that z itself depends on the promises (they are absorbed before z is drawn).  The attack assumes they are not: read z off the
+    verifier's transcript for the honest proof, find by lattice reduction a short integer vector d with sum_j z^(2(j+1)) d_j = 0 (mod l), present
+    the same proof under p + d.  On a verifier that binds the promises the challenges move and the proof is refused."""
+    from lib import forge, lll
+    rng = run.rng
+    quick = run.tier == "quick"
+    jobs = []
+    for (b, m, T) in ([(64, 8, 1)] if quick else [(64, 8, 1), (64, 8, 3), (64, 16, 1), (64, 8, 2)]):
+        mem = gen.mk_member(rng, b, m, cap=m, T=T, ctx={"label": "c07-subst"})
+        for j in range(m):
+            pj = (1 << 62) + rng.randrange(1 << 40)
+            mem["commit"][j]["v"] = str(pj + rng.randrange(1, 1 << 20))
+            mem["promises"][j] = str(pj)
+        jobs.append((b, m, T, mem))
+    specs1 = [{"id": f"c07-subst-{i}", "group": "fm", "members": [mem], "with_gens": False, "log_msm": False,
+               "verifies": [{"mode": "VerifyOnly", "vmembers": [gen.vmember(mem, 0)]}]} for i, (b, m, T, mem) in enumerate(jobs)]
+    obs1 = run_harness(["session"], [sessions.strip(s) for s in specs1], jobs=len(specs1))
+    specs2 = []
+    for (b, m, T, mem), s1, o1 in zip(jobs, specs1, obs1):
+        vo = o1["verifies"][0]
+        if vo["result"] != "ok":
+            run.violation(f"honest aggregated proof under large promises refused: {vo['result'][:80]}", {"kind": "session", "spec": sessions.strip(s1)})
+            continue
+        z = forge.challenges_of(vo)[1]
+        pos = sorted(rng.sample(range(m), 5))                       # five positions give entries of about 2^51, well inside u64
+        d5 = lll.short_relation([pow(z, 2 * (j + 1), L) for j in pos], L)
+        if d5 is None:
+            continue
+        d = [0] * m
+        for j, x in zip(pos, d5):
+            d[j] = x
+        p = [int(x) for x in mem["promises"]]
+        p2 = [a + x for a, x in zip(p, d)]
+        if not all(0 <= x < (1 << 64) for x in p2):
+            continue
+        st = gen.stmt_of(mem)
+        st["promises"] = [str(x) for x in p2]
+        below = [j for j in range(m) if int(mem["commit"][j]["v"]) < p2[j]]
+        specs2.append({"id": s1["id"] + "-b", "group": "fm", "members": [mem], "with_gens": False, "log_msm": False, "log_merlin": False,
+                       "verifies": [{"mode": "VerifyOnly", "vmembers": [gen.vmember(mem, 0)]}, {"mode": "VerifyOnly", "vmembers": [{"proof": 0, "stmt": st, "ctx": mem["ctx"]}]},
+                                    {"mode": "RecoverAndVerify", "vmembers": [{"proof": 0, "stmt": st, "ctx": mem["ctx"]}]}],
+                       "_conf": [b, m, T], "_d": d, "_below": below, "_no_embed": True, "_no_modes": True})
+    for s2, o2 in zip(specs2, run_harness(["session"], [sessions.strip(s) for s in specs2], jobs=max(1, len(specs2)))):
+        b, m, T = s2["_conf"]
+        res = [v["result"] for v in o2["verifies"]]
+        run.count(["c07subst", b, m, T, res[1].split(":")[0]], {"attack": "promise vector substituted by p + d with sum z^(2(j+1)) d_j = 0 (lattice reduction)", "bits": b, "m": m, "T": T,
+                                                                "max |d_j| bits": max(abs(x) for x in s2["_d"]).bit_length(), "value < promise at": s2["_below"], "result": res[1][:60]})
+        run.bump("promise substitution attacks")
+        if res[0] != "ok":
+            run.violation(f"control: the proof is refused under its own promises: {res[0][:80]}", {"kind": "session", "spec": sessions.strip(s2)})
+        for vi in (1, 2):
+            if res[vi] == "ok":
+                run.violation(f"a proof created under promise vector p is ACCEPTED under p + d, d = {s2['_d']} (value < promise at positions {s2['_below']}; bits={b}, m={m}, T={T}): "
+                              f"the promises do not reach the challenges", {"kind": "session", "spec": sessions.strip(s2), "verify": vi})
+                break
 
 
 def oracle(run, s, o):
@@ -165,6 +238,7 @@ def run(run: Run):
     fspecs = forge.forge_all(run.rng, jobs, prefix="c07f")
     forge.report_incomplete(run, jobs)
     sessions.run_sessions(run, fspecs, lambda r, s, o: forge.oracle(r, s, o, " (C07: promise <= value < 2^bits)"), relevant=1 | 4 | 8 | 16 | 64, name="c07f")
+    substitution_attack(run)
     return run.finish(
         "proof",
         "per configuration and position j: promise values {0, v, v-1, v+1, 2^n-1, 2^n, u64::MAX, None} at proving time, and every single substitution "
